@@ -39,16 +39,60 @@ type Lval struct {
 	ty   types.Type
 }
 
+// State: the current version of every heap component. Components never written since the
+// last havoc are implicit: their name is derived from the epoch of their class. Classes:
+// "ghost", "pkg:<module package>" (components of that package's types), "other". A contract's
+// `modifies *` bumps "other" and every package class it does not declare preserved.
 type State struct {
-	epoch  int
-	gepoch int // epoch of ghost components (they survive `modifies *` of a contract)
-	comp   map[string]string
+	ep   map[string]int
+	comp map[string]string
 }
 
 func isGhostComp(c string) bool { return strings.HasPrefix(c, "Ghost$") }
 
+var modulePkgNames = []string{"openapi3filter", "openapi3gen", "openapi2conv", "openapi3", "openapi2", "gorillamux", "pathpattern", "routers", "legacy"}
+
+func compClass(c string) string {
+	if isGhostComp(c) {
+		return "ghost"
+	}
+	if c == "alloc" {
+		return "other"
+	}
+	for t, cl := range classOverride {
+		if strings.Contains(c, t+"$") || strings.HasSuffix(c, t) || strings.Contains(c, t+".R") {
+			return cl
+		}
+	}
+	for _, n := range modulePkgNames {
+		if strings.Contains(c, n+".") {
+			return "pkg:" + n
+		}
+	}
+	return "other"
+}
+
+func (s *State) epochOf(c string) int { return s.ep[compClass(c)] }
+
+func (s *State) sameEpochs(o *State) bool {
+	for k, v := range s.ep {
+		if o.ep[k] != v {
+			return false
+		}
+	}
+	for k, v := range o.ep {
+		if s.ep[k] != v {
+			return false
+		}
+	}
+	return true
+}
+
 func (s *State) clone() *State {
-	n := &State{epoch: s.epoch, gepoch: s.gepoch, comp: make(map[string]string, len(s.comp))}
+	n := &State{ep: make(map[string]int, len(s.ep)), comp: make(map[string]string, len(s.comp))}
+	for k, v := range s.ep {
+		n.ep[k] = v
+	}
 	for k, v := range s.comp {
 		n.comp[k] = v
 	}
@@ -105,8 +149,16 @@ type FnVC struct {
 	extraAssume []string // known-finding guards: assumed at entry
 	unmodelled map[string]bool
 	constCapture map[ssa.Value]TV
+	useKeys  bool // the contract speaks about keys(xs): emit the element-set facts
+	faComps  map[string]faInfo // field components whose address escaped as a pointer term
+	faOrder  []string
 	keyTerms map[string][]string // key sort -> terms used as map keys (for model projection)
 	nSmoke   int
+}
+
+type faInfo struct {
+	sort string
+	kind int
 }
 
 type modLoc struct {
@@ -126,7 +178,7 @@ func newFnVC(p *Prog, fn *ssa.Function, fc *FuncContract, id string) *FnVC {
 		vals: map[ssa.Value]Val{}, reach: map[*ssa.BasicBlock]string{}, out: map[*ssa.BasicBlock]*State{},
 		compSort: map[string]string{}, params: map[string]Val{}, freshRef: map[string]bool{},
 		loops: map[*ssa.BasicBlock]*loopInfo{}, backEdge: map[[2]*ssa.BasicBlock]bool{}, oblNames: map[string]int{},
-		rangeSeen: map[*ssa.Range]string{}, unmodelled: map[string]bool{}, constCapture: map[ssa.Value]TV{}, keyTerms: map[string][]string{}}
+		rangeSeen: map[*ssa.Range]string{}, unmodelled: map[string]bool{}, constCapture: map[ssa.Value]TV{}, keyTerms: map[string][]string{}, faComps: map[string]faInfo{}}
 	if fn.Pkg != nil {
 		vc.pkg = fn.Pkg.Pkg
 	} else if fn.Parent() != nil && fn.Parent().Pkg != nil {
@@ -134,7 +186,23 @@ func newFnVC(p *Prog, fn *ssa.Function, fc *FuncContract, id string) *FnVC {
 	} else if o := fn.Origin(); o != nil && o.Pkg != nil {
 		vc.pkg = o.Pkg.Pkg
 	}
-	vc.entry = &State{epoch: 0, comp: map[string]string{}}
+	vc.entry = &State{ep: map[string]int{}, comp: map[string]string{}}
+	if fc != nil {
+		for _, cls := range [][]*Clause{fc.Requires, fc.Ensures} {
+			for _, cl := range cls {
+				if strings.Contains(cl.Src, "keys(") || strings.Contains(cl.Src, "keysPrefix(") {
+					vc.useKeys = true
+				}
+			}
+		}
+		for _, ls := range fc.Loops {
+			for _, cl := range ls.Invariants {
+				if strings.Contains(cl.Src, "keys(") || strings.Contains(cl.Src, "keysPrefix(") {
+					vc.useKeys = true
+				}
+			}
+		}
+	}
 	return vc
 }
 
@@ -205,7 +273,7 @@ func (vc *FnVC) oblige(class, detail, goal string, tags []string, src string) *O
 	}
 	o := &Obligation{Name: name, Class: class, Func: vc.shortName(), Goal: g, Prefix: len(vc.stream), Tags: tags, Pos: pos, Expect: "unsat", Detail: detail, Src: src, vc: vc}
 	vc.obls = append(vc.obls, o)
-	if goal != "false" || class != "smoke" {
+	if class != "post" {
 		vc.emit(g)
 	}
 	return o
@@ -230,11 +298,7 @@ func (vc *FnVC) compInit(st *State, comp string) string {
 	if !ok {
 		panic("internal: component " + comp + " has no sort")
 	}
-	ep := st.epoch
-	if isGhostComp(comp) {
-		ep = st.gepoch
-	}
-	name := fmt.Sprintf("%s!e%d", comp, ep)
+	name := fmt.Sprintf("%s!e%d", comp, st.epochOf(comp))
 	vc.enc.declConst(name, sort)
 	return name
 }
@@ -269,26 +333,69 @@ func (vc *FnVC) havocComp(st *State, comp string) string {
 	return n
 }
 
-// havocAll: everything may have changed. With keepGhost, ghost components survive (a
-// contract's `modifies *` speaks about program memory; ghost state changes only when named).
-func (vc *FnVC) havocAll(st *State, keepGhost ...bool) {
+// havocAll: everything may have changed, except the component classes listed in keep
+// ("ghost", "pkg:openapi3", ...). A contract's `modifies *` keeps ghost state (it changes
+// only when named) and the packages it declares preserved.
+func (vc *FnVC) havocAll(st *State, keep ...string) {
 	vc.epochCtr++
 	alloc := vc.cur(st, "alloc")
-	st.epoch = vc.epochCtr
+	kept := map[string]bool{}
+	for _, k := range keep {
+		kept[k] = true
+	}
 	old := st.comp
-	st.comp = map[string]string{}
-	if len(keepGhost) > 0 && keepGhost[0] {
-		for k, v := range old {
-			if isGhostComp(k) {
-				st.comp[k] = v
+	oldState := &State{ep: st.ep, comp: old}
+	restore := map[string]string{}
+	for k := range kept {
+		if strings.HasPrefix(k, "comp:") {
+			c := k[5:]
+			if _, ok := vc.compSort[c]; ok {
+				restore[c] = vc.cur(oldState, c)
 			}
 		}
-	} else {
-		st.gepoch = vc.epochCtr
+	}
+	st.comp = map[string]string{}
+	for k, v := range old {
+		if kept[compClass(k)] {
+			st.comp[k] = v
+		}
+	}
+	defer func() {
+		for c, v := range restore {
+			st.comp[c] = v
+		}
+	}()
+	classes := map[string]bool{"other": true, "ghost": true}
+	for _, n := range modulePkgNames {
+		classes["pkg:"+n] = true
+	}
+	for c := range classes {
+		if !kept[c] {
+			st.ep[c] = vc.epochCtr
+		}
 	}
 	// the allocation counter only grows
 	n := vc.havocComp(st, "alloc")
 	vc.assume("(>= " + n + " " + alloc + ")")
+}
+
+// typeTok names a Go type for use in component names. Two types that Go lets alias behind a
+// pointer conversion (identical underlying types) get the same token; struct-typed
+// elements are handled field-wise elsewhere.
+func typeTok(t types.Type) string {
+	u := t.Underlying()
+	switch x := u.(type) {
+	case *types.Basic:
+		if int(x.Kind()) < len(types.Typ) && types.Typ[x.Kind()] != nil {
+			return sanitize(types.Typ[x.Kind()].Name())
+		}
+		return sanitize(x.Name())
+	case *types.Interface:
+		return "iface"
+	case *types.Signature:
+		return "func"
+	}
+	return typeShort(u)
 }
 
 // component names
@@ -303,14 +410,14 @@ func (vc *FnVC) fieldComp(structT types.Type, idx int) (comp, sort string, fty t
 
 func (vc *FnVC) cellComp(t types.Type) (comp, sort string) {
 	sort = vc.enc.sortOf(t)
-	comp = "Cell$" + sortTok(sort)
+	comp = "Cell$" + typeTok(t)
 	vc.regComp(comp, arraySort(sInt, sort))
 	return
 }
 
 func (vc *FnVC) elemComp(t types.Type) (comp, sort string) {
 	sort = vc.enc.sortOf(t)
-	comp = "Elem$" + sortTok(sort)
+	comp = "Elem$" + typeTok(t)
 	vc.regComp(comp, arraySort(sInt, arraySort(sInt, sort)))
 	return
 }
@@ -318,8 +425,8 @@ func (vc *FnVC) elemComp(t types.Type) (comp, sort string) {
 func (vc *FnVC) mapComps(m *types.Map) (mh, mv, ks, vs string) {
 	ks = vc.enc.sortOf(m.Key())
 	vs = vc.enc.sortOf(m.Elem())
-	mh = "MH$" + sortTok(ks) + "$" + sortTok(vs)
-	mv = "MV$" + sortTok(ks) + "$" + sortTok(vs)
+	mh = "MH$" + typeTok(m.Key()) + "$" + typeTok(m.Elem())
+	mv = "MV$" + typeTok(m.Key()) + "$" + typeTok(m.Elem())
 	vc.regComp(mh, arraySort(sInt, arraySort(ks, sBool)))
 	vc.regComp(mv, arraySort(sInt, arraySort(ks, vs)))
 	vc.regComp("ML", arraySort(sInt, sInt))
@@ -383,7 +490,7 @@ func (vc *FnVC) typeInv(st *State, v string, t types.Type) string {
 			return and("(<= "+intLit(lo)+" "+v+")", "(<= "+v+" "+intLit(hi)+")")
 		}
 		if u.Info()&types.IsString != 0 {
-			return "true"
+			return "(<= (str.len " + v + ") 9223372036854775807)"
 		}
 		return "true"
 	case *types.Pointer:
@@ -391,13 +498,13 @@ func (vc *FnVC) typeInv(st *State, v string, t types.Type) string {
 	case *types.Map:
 		vc.regComp("ML", arraySort(sInt, sInt))
 		ml := vc.cur(st, "ML")
-		return and("(<= 0 "+v+")", "(<= "+v+" "+vc.alloc(st)+")", "(<= 0 "+sel(ml, v)+")", eq(sel(ml, "0"), "0"))
+		return and("(<= 0 "+v+")", "(<= "+v+" "+vc.alloc(st)+")", "(<= 0 "+sel(ml, v)+")", "(<= "+sel(ml, v)+" 9223372036854775807)", eq(sel(ml, "0"), "0"))
 	case *types.Signature, *types.Chan:
 		return and("(<= 0 "+v+")", "(<= "+v+" "+vc.alloc(st)+")")
 	case *types.Slice:
-		return and("(<= 0 (sl-arr "+v+"))", "(<= (sl-arr "+v+") "+vc.alloc(st)+")", "(<= 0 (sl-off "+v+"))", "(<= 0 (sl-len "+v+"))",
-			"(<= (sl-len "+v+") (sl-cap "+v+"))",
-			implies(eq("(sl-arr "+v+")", "0"), and(eq("(sl-cap "+v+")", "0"), eq("(sl-off "+v+")", "0"))))
+		return and("(<= 0 (sl-arr "+v+"))", "(<= (sl-arr "+v+") "+vc.alloc(st)+")", "(<= 0 (sl-len "+v+"))",
+			"(<= (sl-len "+v+") (sl-cap "+v+"))", "(<= (sl-cap "+v+") 9223372036854775807)",
+			implies(eq("(sl-arr "+v+")", "0"), eq("(sl-cap "+v+")", "0")))
 	case *types.Interface:
 		return and("(<= 0 (if-tag "+v+"))", implies(eq("(if-tag "+v+")", "0"), eq("(if-data "+v+")", "0")))
 	case *types.Struct:
@@ -523,4 +630,16 @@ func (vc *FnVC) topo(reachable map[*ssa.BasicBlock]bool) []*ssa.BasicBlock {
 		}
 	}
 	return order
+}
+
+// keysOf: the set of the first n elements of a backing array (element sort es), as an
+// uninterpreted function with quantifier-free unfolding facts emitted where elements are
+// appended or read (see doAppend, doIndexAddr).
+func (vc *FnVC) keysOf(es, arr, n string) string {
+	fn := "keysOf$" + sortTok(es)
+	if !vc.enc.declared[fn] {
+		vc.enc.declFun(fn, []string{arraySort(sInt, es), sInt}, arraySort(es, sBool))
+		vc.enc.header = append(vc.enc.header, "(assert (forall ((a "+arraySort(sInt, es)+")) (! (= ("+fn+" a 0) ((as const "+arraySort(es, sBool)+") false)) :pattern (("+fn+" a 0)))))")
+	}
+	return "(" + fn + " " + arr + " " + n + ")"
 }
